@@ -25,6 +25,16 @@ Proof.
   apply filter_In in H. apply H.
 Qed.
 
+Lemma last_delivery_sub st s m now d : last_delivery st s m now = Some d -> d_sub d = s_id s.
+Proof.
+  unfold last_delivery. intros H.
+  apply (fold_best_in (fun b d => (d_published b <? d_published d)%Z)) in H.
+  destruct H as [H|H]; [|discriminate].
+  apply filter_In in H. destruct H as [_ H].
+  apply andb_true_iff in H. destruct H as [H _]. apply andb_true_iff in H. destruct H as [H _].
+  apply N.eqb_eq in H. exact H.
+Qed.
+
 Lemma get_msg_in st i m : get_msg st i = Some m -> In m (msgs st) /\ m_id m = i.
 Proof. apply find_id_some. Qed.
 Lemma get_sub_in st i s : get_sub st i = Some s -> In s (subs st) /\ s_id s = i.
@@ -66,6 +76,17 @@ Proof.
       destruct (last_delivery st s m now) as [ld|] eqn:LD; [|discriminate].
       cbn in Hp. inversion Hp; subst. unfold dids. apply in_map.
       eapply last_delivery_in; eauto.
+    + intros U pd Hpd Hl.
+      destruct (s_ordered s && match m_key m with Some k => negb (String.eqb k "") | None => false end);
+        [|discriminate].
+      destruct (last_delivery st s m now) as [ld|] eqn:LD; [|discriminate].
+      cbn in Hl. inversion Hl as [E].
+      assert (pd = ld).
+      { destruct U as (_&_&_&UD&_).
+        pose proof (find_id_in_nodup d_id pd (dels st) UD Hpd) as F1.
+        pose proof (find_id_in_nodup d_id ld (dels st) UD (last_delivery_in _ _ _ _ _ LD)) as F2.
+        rewrite <- E in F1. congruence. }
+      subst pd. eapply last_delivery_sub; eauto.
   - intros H; inversion H; subst; clear H. split; [apply same_others_refl|discriminate].
 Qed.
 
